@@ -106,7 +106,7 @@ static void row(const char *kind, htp_cfg_t **cfgs, const unsigned char *in, siz
                 size_t (*cutsets)[8], int *ncuts, int nsets) {
     static const char *VIA[] = {"direct", "body", "query"};
     printf("{\"kind\":\"%s\",\"in\":", kind); pbytes(in, len);
-    printf(",\"mode\":\"%s\",\"plus\":%s,\"via\":\"%s\",\"outs\":[", MODES[mode], plus ? "true" : "false", VIA[via]);
+    printf(",\"mode\":\"%s\",\"plus\":%s,\"udec\":false,\"nulenc\":false,\"nulraw\":false,\"via\":\"%s\",\"outs\":[", MODES[mode], plus ? "true" : "false", VIA[via]);
     for (int s = 0; s < nsets; s++) {
         if (s) putchar(',');
         if (via == 0) run_direct(cfgs[mode * 2 + plus], in, len, cutsets[s], ncuts[s]);
@@ -115,7 +115,45 @@ static void row(const char *kind, htp_cfg_t **cfgs, const unsigned char *in, siz
     printf("]}\n");
 }
 
+/* decoder options beyond mode / plus: %u decoding, termination at an encoded / raw NUL; one field "k=<atoms>" per row */
+static void rowx(htp_cfg_t *cfg, const unsigned char *in, size_t len, int mode, int plus, int udec, int nulenc, int nulraw) {
+    static size_t cs[3][8]; static int nc[3];
+    nc[0] = 0; nc[1] = 1; cs[1][0] = len / 2 ? len / 2 : 1; nc[2] = len > 3 ? 2 : 0; cs[2][0] = 3; cs[2][1] = len - 1;
+    printf("{\"kind\":\"dec\",\"in\":"); pbytes(in, len);
+    printf(",\"mode\":\"%s\",\"plus\":%s,\"udec\":%s,\"nulenc\":%s,\"nulraw\":%s,\"via\":\"direct\",\"outs\":[", MODES[mode], plus ? "true" : "false",
+           udec ? "true" : "false", nulenc ? "true" : "false", nulraw ? "true" : "false");
+    for (int s = 0; s < 3; s++) { if (s) putchar(','); run_direct(cfg, in, len, cs[s], nc[s]); }
+    printf("]}\n");
+}
+static int main_dec(int maxa, int shard, int nsh) {
+    static const char *AT[] = {"%u0041", "%u0100", "%uFF0F", "%u1234", "%u0000", "%uZZ41", "%u00", "%u", "%41", "%00", "%zz", "%", "+", "a", "\0", "%U0041"};
+    static const size_t AL[] = {6, 6, 6, 6, 6, 6, 4, 2, 3, 3, 3, 1, 1, 1, 1, 6};
+    const int NA = 16;
+    htp_cfg_t *cx[48];
+    for (int i = 0; i < 48; i++) {
+        cx[i] = mkcfg(i % 3, (i / 3) % 2);
+        htp_config_set_u_encoding_decode(cx[i], HTP_DECODER_URLENCODED, (i / 6) % 2);
+        htp_config_set_nul_encoded_terminates(cx[i], HTP_DECODER_URLENCODED, (i / 12) % 2);
+        htp_config_set_nul_raw_terminates(cx[i], HTP_DECODER_URLENCODED, (i / 24) % 2);
+    }
+    long idx = 0; unsigned char in[64];
+    for (int na = 1; na <= maxa; na++) {
+        long total = 1; for (int i = 0; i < na; i++) total *= NA;
+        for (long v = 0; v < total; v++, idx++) {
+            if (idx % nsh != shard) continue;
+            long t = v; int pick[8]; size_t l = 2; in[0] = 'k'; in[1] = '=';
+            for (int i = na - 1; i >= 0; i--) { pick[i] = (int) (t % NA); t /= NA; }
+            for (int i = 0; i < na; i++) { memcpy(in + l, AT[pick[i]], AL[pick[i]]); l += AL[pick[i]]; }
+            for (int c = 0; c < 48; c++) rowx(cx[c], in, l, c % 3, (c / 3) % 2, (c / 6) % 2, (c / 12) % 2, (c / 24) % 2);
+        }
+    }
+    for (int i = 0; i < 48; i++) htp_config_destroy(cx[i]);
+    fflush(stdout);
+    return 0;
+}
+
 int main(int argc, char **argv) {
+    if (argc >= 5 && !strcmp(argv[1], "dec")) return main_dec(atoi(argv[2]), atoi(argv[3]), atoi(argv[4]));
     htp_cfg_t *cfgs[6];
     for (int m = 0; m < 3; m++) for (int p = 0; p < 2; p++) cfgs[m * 2 + p] = mkcfg(m, p);
     static size_t cutsets[64][8];
